@@ -271,9 +271,10 @@ def run_property(build_mod: str, pid: str, argv=None) -> int:
         print(f"VIOLATION property={pid} replay={path}")
         print(f"  bounded check {res.name}: {f.get('what', '')}"[:400])
         exit_code = 1
-    if exit_code == 0 and errors:
+    if errors:
         kinds = {k for _, k, _ in errors}
-        exit_code = 2 if kinds <= {"unsupported"} else 3
+        if exit_code == 0:
+            exit_code = 2 if kinds <= {"unsupported"} else 3
         for key, kind, msg in errors:
             print(f"{'UNDECIDED' if kind == 'unsupported' else 'CHECKER-ERROR'} property={pid} {key}: {msg[:1500]}")
     if exit_code == 0 and undecided:
